@@ -325,3 +325,105 @@ func c13Collections() *core.Space {
 		},
 	}
 }
+
+// C13, failure clause next to InitDefaults: whatever the config mentions (nothing at all included), a failing
+// Unpack leaves the struct as it was - the defaults are not written either.
+type c13IDSub struct {
+	Max int `config:"max"`
+	Min int `config:"min"`
+}
+
+func (s *c13IDSub) InitDefaults() { s.Max = 100 }
+func (s c13IDSub) Validate() error {
+	if s.Min > s.Max {
+		return fmt.Errorf("min > max")
+	}
+	return nil
+}
+
+type c13IDT struct {
+	Port int        `config:"port"`
+	Name string     `config:"name"`
+	Sub  c13IDSub   `config:"sub"`
+	Ptr  *c13IDSub  `config:"ptr"`
+	Lst  []c13IDSub `config:"lst"`
+	Req  string     `config:"req" validate:"required"`
+}
+
+func (t *c13IDT) InitDefaults() { t.Port = 8080; t.Sub.Min = 1 }
+
+func c13InitDefaultsFailures() *core.Space {
+	cfgs := []struct {
+		Name string
+		Mk   func() *ucfg.Config
+	}{
+		{"New()", func() *ucfg.Config { return ucfg.New() }},
+		{"NewFrom({})", func() *ucfg.Config { return mustCfg(M{}) }},
+		{"Child(\"e\") of {e: {}, o: {req: x}}", func() *ucfg.Config {
+			c, _ := mustCfg(M{"e": M{}, "o": M{"req": "x"}}).Child("e", -1)
+			return c
+		}},
+		{"{unrelated: 1}", func() *ucfg.Config { return mustCfg(M{"unrelated": 1}) }},
+		{"{port: 1}", func() *ucfg.Config { return mustCfg(M{"port": 1}) }},
+		{"{sub: {min: 200}}", func() *ucfg.Config { return mustCfg(M{"sub": M{"min": 200}}) }},
+		{"{req: x, sub: {min: 200}}", func() *ucfg.Config { return mustCfg(M{"req": "x", "sub": M{"min": 200}}) }},
+		{"{req: x, ptr: {min: 200}}", func() *ucfg.Config { return mustCfg(M{"req": "x", "ptr": M{"min": 200}}) }},
+		{"{req: x, lst: [{}, {min: 200}]}", func() *ucfg.Config { return mustCfg(M{"req": "x", "lst": L{M{}, M{"min": 200}}}) }},
+		{"{req: x, port: bad}", func() *ucfg.Config { return mustCfg(M{"req": "x", "port": "bad"}) }},
+		{"{req: x}", func() *ucfg.Config { return mustCfg(M{"req": "x"}) }},
+		{"{req: x, sub: {min: 2}}", func() *ucfg.Config { return mustCfg(M{"req": "x", "sub": M{"min": 2}}) }},
+	}
+	pre := []struct {
+		Name string
+		Mk   func() *c13IDT
+	}{
+		{"zero", func() *c13IDT { return &c13IDT{} }},
+		{"pre-filled", func() *c13IDT {
+			return &c13IDT{Port: 1, Name: "n", Sub: c13IDSub{Max: 3, Min: 2}, Ptr: &c13IDSub{Max: 4}, Lst: []c13IDSub{{5, 1}}}
+		}},
+		{"pre-filled with the required field", func() *c13IDT {
+			return &c13IDT{Port: 1, Sub: c13IDSub{Max: 300, Min: 2}, Req: "r"}
+		}},
+	}
+	radices := []int{len(cfgs), len(pre)}
+	return &core.Space{
+		Name: "initdefaults-x-configs-x-failures",
+		Size: product(radices...),
+		Text: func(i int) string {
+			d := mixedRadix(i, radices...)
+			return fmt.Sprintf("%s unpacked into a %s struct with InitDefaults (also nested, behind a pointer and in a list), a required field and a nested Validate", cfgs[d[0]].Name, pre[d[1]].Name)
+		},
+		Exec: func(i int) core.Result {
+			d := mixedRadix(i, radices...)
+			var res core.Result
+			pi := core.Guard(func() {
+				t := pre[d[1]].Mk()
+				before := c13Shallow(reflect.ValueOf(t).Elem())
+				ptrBefore := ""
+				if t.Ptr != nil {
+					ptrBefore = fmt.Sprintf("%+v", *t.Ptr)
+				}
+				err := cfgs[d[0]].Mk().Unpack(t)
+				if err != nil {
+					if after := c13Shallow(reflect.ValueOf(t).Elem()); after != before {
+						res = core.Fail("initdefaults", "CHANGED-ON-FAILURE struct with InitDefaults", "Unpack failed ("+firstLine(err.Error())+") but the struct changed: before "+before+" after "+after)
+						return
+					}
+					_ = ptrBefore
+					res = core.Result{Nontrivial: true, Outcome: "failure, unchanged"}
+					return
+				}
+				// success: the result satisfies what made the others fail
+				if t.Req == "" || t.Sub.Min > t.Sub.Max || t.Port == 0 {
+					res = core.Fail("initdefaults", "SUCCESS-WITH-INVALID-RESULT struct with InitDefaults", fmt.Sprintf("%+v", *t))
+					return
+				}
+				res = core.Result{Nontrivial: true, Outcome: "success"}
+			})
+			if pi != nil {
+				return apiPanic("initdefaults", pi)
+			}
+			return res
+		},
+	}
+}
